@@ -118,4 +118,82 @@ theorem Spells.tok {ts : List Token} {k : TK} (h : cur ts = k) (hk : k ≠ .eof)
 theorem Spells.cast {ts rest : List Token} {ys zs : List Tok'} (h : Spells ts rest ys) (e : ys = zs) :
     Spells ts rest zs := e ▸ h
 
+/-! ## no yield starts like a call (identifier directly followed by `(`)
+
+Calls are outside the fragment: in a yield an identifier is followed by `(` only inside `[ OFFSET ( … ) ]`, behind the
+`[`.  This is what makes the repaired `parseIndexSpecifier` (position keyword only when the next token is `(`) read
+every plain subscript as a plain subscript, without any side condition on the tree. -/
+
+theorem startsCall_append {A : List Tok'} {b : Tok'} (B : List Tok') (hA : startsCall A = false)
+    (h1 : b.k ≠ .ident) (h2 : b.k ≠ .lparen) : startsCall (A ++ b :: B) = false := by
+  match A, hA with
+  | [], _ =>
+    cases B <;> simp [startsCall, h1]
+  | [a], _ => simp [startsCall, h2]
+  | a :: c :: tl, hA => simpa [startsCall] using hA
+
+theorem startsCall_cons {a : Tok'} (L : List Tok') (h : a.k ≠ .ident) : startsCall (a :: L) = false := by
+  cases L <;> simp [startsCall, h]
+
+theorem startsCall_pathToks (ns : List Bytes) : startsCall (pathToks ns) = false := by
+  match ns with
+  | [] => rfl
+  | [_] => rfl
+  | _ :: _ :: _ => rfl
+
+theorem BOp.toks_eq (op : BOp) : ∃ b B, op.toks = b :: B ∧ b.k ≠ .ident ∧ b.k ≠ .lparen := by
+  cases op <;> exact ⟨_, _, rfl, by decide, by decide⟩
+
+theorem notToks_cons (not : Bool) (b : Tok') (B : List Tok') (h1 : b.k ≠ .ident) (h2 : b.k ≠ .lparen) :
+    ∃ c C, notToks not ++ b :: B = c :: C ∧ c.k ≠ .ident ∧ c.k ≠ .lparen := by
+  cases not
+  · exact ⟨b, B, rfl, h1, h2⟩
+  · exact ⟨T .not_, b :: B, rfl, by decide, by decide⟩
+
+/-- the yield of an expression never starts with an identifier directly followed by `(` -/
+theorem yield_not_call : (e : Expr) → startsCall (yield e) = false
+  | .null | .str _ | .bytes _ | .param _ | .ident _ => rfl
+  | .bool b => by cases b <;> rfl
+  | .int s raw => by cases s <;> simp [yield, signToks, startsCall, T]
+  | .float s raw => by cases s <;> simp [yield, signToks, startsCall, T]
+  | .path ns => startsCall_pathToks ns
+  | .paren e => startsCall_cons _ (by decide)
+  | .unary op e => by cases op <;> exact startsCall_cons _ (by decide)
+  | .bin op l r => by
+    obtain ⟨b, B, hb, h1, h2⟩ := op.toks_eq
+    simp only [yield, hb, List.cons_append]
+    exact startsCall_append _ (yield_not_call l) h1 h2
+  | .isNull e not => startsCall_append _ (yield_not_call e) (by decide) (by decide)
+  | .isBool e not r => startsCall_append _ (yield_not_call e) (by decide) (by decide)
+  | .between not e lo hi => by
+    obtain ⟨c, C, hc, h1, h2⟩ := notToks_cons not (T .between) (yield lo ++ (T .and_ :: yield hi)) (by decide) (by decide)
+    simp only [yield, hc]
+    exact startsCall_append _ (yield_not_call e) h1 h2
+  | .inList not e first more => by
+    obtain ⟨c, C, hc, h1, h2⟩ := notToks_cons not (T .in_) (T .lparen :: (yield first ++ (yields more ++ [T .rparen])))
+      (by decide) (by decide)
+    simp only [yield, hc]
+    exact startsCall_append _ (yield_not_call e) h1 h2
+  | .inUnnest not e a => by
+    obtain ⟨c, C, hc, h1, h2⟩ := notToks_cons not (T .in_) (T .unnest :: T .lparen :: (yield a ++ [T .rparen]))
+      (by decide) (by decide)
+    simp only [yield, hc]
+    exact startsCall_append _ (yield_not_call e) h1 h2
+  | .sel e n => startsCall_append _ (yield_not_call e) (by decide) (by decide)
+  | .index e none i => startsCall_append _ (yield_not_call e) (by decide) (by decide)
+  | .index e (some (_, sp)) i => startsCall_append _ (yield_not_call e) (by decide) (by decide)
+
+/-- in tokens that read a yield (followed by anything that is not `(`), the token after a leading identifier is
+not `(`: the look-ahead of `parseIndexSpecifier` answers "no keyword" on every plain subscript -/
+theorem not_call_of_yield {pre rest : List Token} {e : Expr} (hr : pre.map proj = yield e) (hne : pre ≠ [])
+    (hrest : cur rest ≠ .lparen) (hc : cur (pre ++ rest) = .ident) : cur (pre ++ rest).tail ≠ .lparen := by
+  have h := yield_not_call e
+  rw [← hr] at h
+  match pre, hne, h with
+  | [t], _, _ => simpa using hrest
+  | t :: u :: tl, _, h =>
+    simp only [List.cons_append, cur_cons, List.tail_cons] at hc ⊢
+    intro hu
+    simp [startsCall, proj, hc, hu] at h
+
 end MF.Expr
